@@ -10,7 +10,7 @@
    countdowns). *)
 From Coq Require Import ZArith NArith List.
 From RS Require Import TW.Term.
-From RS Require TW.App TW.Worker TW.WorkerOnceApp TW.WorkerTerm TW.WorkerTermProofs.
+From RS Require TW.App TW.Worker TW.WorkerOnceProofs TW.WorkerOnceApp TW.WorkerTerm TW.WorkerTermProofs.
 Local Open Scope Z_scope.
 
 Theorem C07_initial_state_invariant : forall TMAX, 0 < TMAX -> forall preds, Inv TMAX (t_init TMAX preds).
@@ -65,6 +65,12 @@ Theorem C07_worker_vote_sound : forall (p : App.prog) (ck : nat) (TMAX : Z), 0 <
                  pre ++ map WorkerTerm.ztm (WorkerTermProofs.P (Worker.x_hist (Worker.get_lp (WorkerTerm.tw_w s) l)))).
 Proof. exact WorkerTermProofs.worker_vote_sound. Qed.
 
+(* ... and every rollback the accounting sees is at or above the worker's GVT, so what a vote at g <= GVT relies on is never undone *)
+Theorem C07_worker_hooks_are_at_or_above_the_gvt : forall (p : App.prog) (ck : nat), WorkerOnceApp.types_okb p = true ->
+  forall w, WorkerOnceProofs.full p w -> forall o, In o (WorkerTerm.msg_term_ops p ck w) ->
+  match o with Proc _ t _ => Worker.k_gvt w <= t | Rb _ t _ => Worker.k_gvt w <= t | Gvt _ _ => True end.
+Proof. intros p ck _. exact (WorkerTermProofs.term_ops_at_or_above_gvt p ck). Qed.
+
 Print Assumptions C07_initial_state_invariant.
 Print Assumptions C07_accounting_invariant_preserved.
 Print Assumptions C07_invariant_all_histories.
@@ -72,3 +78,4 @@ Print Assumptions C07_vote_sound.
 Print Assumptions C07_worker_termination_invariant.
 Print Assumptions C07_worker_component_is_the_worker_model.
 Print Assumptions C07_worker_vote_sound.
+Print Assumptions C07_worker_hooks_are_at_or_above_the_gvt.
